@@ -17,6 +17,7 @@ from mido import Message, MetaMessage, MidiFile, MidiTrack
 from .c13 import FakeTime
 
 ID = 'C16'
+ANCHORS = ['mido.midifiles.midifiles']
 LEVEL = 'exploration'
 RULE = ('seeded histories of 3-12 (quick) / up to 40 (thorough) steps over one MidiFile: edits '
         '{tracks.append/insert/pop/remove/setitem/clear/extend, mid.tracks = [...], '
